@@ -86,6 +86,13 @@ def notifStr : Notif → String
   | .active => "active" | .idle => "idle" | .defunct => "defunct"
   | .rejoin a => s!"rejoin {idStr a}"
 
+def msgStr : Msg → String
+  | .ping n => s!"ping:{n}" | .ack n => s!"ack:{n}"
+  | .pingReq t n => s!"pingreq:{idStr t}:{n}" | .indirectPing t n => s!"indirectping:{idStr t}:{n}"
+  | .indirectAck t n => s!"indirectack:{idStr t}:{n}" | .forwardedAck t n => s!"forwardedack:{idStr t}:{n}"
+  | .announce => "announce" | .feed => "feed" | .gossip => "gossip" | .broadcast => "broadcast"
+  | .turnUndead => "turnundead"
+
 def effStr : Effect → String
   | .send d b => s!"eff send {idStr d} {hexOfBytes b}"
   | .timer ms t => s!"eff timer {ms} {timerStr t}"
@@ -303,6 +310,20 @@ partial def loop (inp out : IO.FS.Stream) (insts : List (Nat × Inst)) : IO Unit
       out.putStrLn "end"; out.flush
       loop inp out (setInst insts k inst')
     | none => out.putStrLn "bad-op"; out.putStrLn "end"; out.flush; loop inp out insts
+  | ["codec", what, cname, hx] =>
+    let r : Option String := do
+      let c ← parseCodec cname
+      let b ← bytesOfHex hx
+      match what with
+      | "dech" => pure (match c.decHeader b with
+          | none => "none"
+          | some (h, rest) => s!"header {idStr h.src} {h.srcInc} {idStr h.dst} {msgStr h.msg} rest={rest.length}")
+      | "decm" => pure (match c.decMember b with
+          | none => "none"
+          | some (m, rest) => s!"member {memberStr m} rest={rest.length}")
+      | _ => none
+    out.putStrLn (r.getD "bad-op"); out.putStrLn "end"; out.flush
+    loop inp out insts
   | _ => out.putStrLn "bad-op"; out.putStrLn "end"; out.flush; loop inp out insts
 
 def main : IO Unit := do
